@@ -73,6 +73,26 @@ def run(pid, tier, selftest, assumptions):
             for site in a2mlgen.SITES:
                 docs.append((a2mlgen.document(None, [(site, toks)]), False))
                 meta.append({"e": "ifdata:" + site, "pat": {"fam": "ifdata", "cmt": name}, "file_level_comment": False})
+    # IF_DATA that the file's A2ML describes, with one to three tokens per line (every token, also inside IF_DATA,
+    # is written on the line it had)
+    import a2mlgen
+    grng = random.Random(vlib.seed() * 31 + 5)
+    dgen = a2mlgen.DefGen(grng)
+    sc = lambda k: {"t": {"k": k}, "dims": []}
+    fixed = [[{"d": "block", "tag": "IF_DATA", "seq": False, "m": {"t": {"k": "tu", "name": "", "ref": False, "tags": [
+        {"tag": "MIXED", "block": False, "repeat": False, "hasdef": True, "seq": False,
+         "m": {"t": {"k": "struct", "name": "", "ref": False, "ms": [sc("uint"), sc("float"), sc("double"), sc("long"), sc("float"), {"t": {"k": "char"}, "dims": [16]}, sc("double")]}, "dims": []}},
+        {"tag": "FLOATS", "block": True, "repeat": False, "hasdef": True, "seq": True, "m": sc("float")}]}, "dims": []}}]]
+    for di in range(8 if tier == "quick" else 60):
+        dgen.max_depth = grng.choice([2, 3, 4])
+        decls = fixed[di] if di < len(fixed) else dgen.definition()
+        ty = a2mlgen.resolve(decls)[1]
+        for per_line in (1, 2, 3):
+            a2mlgen.PER_LINE[0] = per_line
+            blocks = [(a2mlgen.SITES[(di + i) % 11], [t for t in a2mlgen.instance(ty, grng) if "\\n" not in t]) for i in range(4)]
+            docs.append((a2mlgen.document(a2mlgen.render(decls), blocks), False))
+            meta.append({"e": "ifdata-described", "pat": {"fam": "ifdata-described", "cmt": f"{per_line} per line"}, "file_level_comment": False})
+    a2mlgen.PER_LINE[0] = 6
     # value classes per parameter type (C01, C02): the literal catalogue of MC_ParserCases
     nvalue = 0
     vrej = {}
